@@ -2,6 +2,8 @@ package hx
 
 // Generation of abstract documents as Parser event streams.
 
+import "strings"
+
 const XmlNsUri = "http://www.w3.org/XML/1998/namespace"
 
 type DocCfg struct {
@@ -19,6 +21,14 @@ type DocCfg struct {
 var DefaultNames = []string{"a", "b", "c", "d", "item", "x-1", "n.m", "child", "text", "self", "comment", "node", "attribute", "a"}
 var DefaultTexts = []string{"1", "2", "10", "9", "-3", "1.5", "2.25", " 7 ", "0", "abc", "", "1e3", "NaN", "Infinity", "0x10", "+1", "é", "𝄞x", "3", "b", " ", "a b", "-0", ".5", "5.", "007", "12345678901234567890", "\u00a012", "3\u2003", "\u00854", "1\u00a0"}
 var NumericTexts = []string{"1", "2", "10", "9", "-3", "1.5", "2.25", "0", "3", "4", "-0.5", "100", "0.125", "7", "\u00a012", " 8 ", "\t6\n"}
+// numbers too large for a double: number() is +-Infinity (IEEE round to nearest), not NaN
+var HugeNumberTexts = []string{"1" + strings.Repeat("0", 309), "-" + strings.Repeat("9", 320) + ".5", " 17976931348623158" + strings.Repeat("0", 292) + " ", "17976931348623157" + strings.Repeat("0", 292)}
+
+func init() {
+	DefaultTexts = append(DefaultTexts, HugeNumberTexts[0], HugeNumberTexts[1])
+	NumericTexts = append(NumericTexts, HugeNumberTexts...)
+}
+
 var UriPool = []string{"urn:a", "urn:b", "http://x/y"}
 var LangPool = []string{"en", "en-GB", "en-US", "EN", "de", "zh-TW", "zh", "", "fr-CA-x-foo", "e", "en-", "zh-Hant", "zh-Hant-TW", "en-GB-oxendict", "fr-CA"}
 var AttrNames = []string{"id", "k", "a", "x-1", "n", "attribute", "text"}
